@@ -115,7 +115,7 @@ func RunIter(c Comb, p Params, script [][]Step) Session {
 		for i := 0; i < 64 && ends < 3; i++ {
 			v, ok := it.Next()
 			if ok {
-				s.Calls = append(s.Calls, Call{K: 0, V: v, T: taken(src)})
+				s.Calls = append(s.Calls, Call{K: 0, V: unshift(v), T: taken(src)})
 			} else {
 				ends++
 				s.Calls = append(s.Calls, Call{K: 1, V: []int{}, T: taken(src)})
@@ -134,7 +134,7 @@ func RunSlice(c Comb, p Params, script [][]Step) Session {
 		in[i] = []int{}
 		for _, st := range sc {
 			if st.Kind == StItem {
-				in[i] = append(in[i], st.Val)
+				in[i] = append(in[i], st.Val-ValShift)
 			}
 		}
 	}
@@ -142,7 +142,7 @@ func RunSlice(c Comb, p Params, script [][]Step) Session {
 		out := c.L(in, p)
 		s.Outs = [][]int{}
 		for _, o := range out {
-			s.Outs = append(s.Outs, append([]int{}, o...))
+			s.Outs = append(s.Outs, unshift(append([]int{}, o...)))
 		}
 	})
 	return s
@@ -172,7 +172,7 @@ func RunStream(c Comb, p Params, script [][]Step, expired []bool, stopOuts int) 
 			v, err := st.Next(ctx)
 			switch {
 			case err == nil:
-				call.K, call.V = 0, v
+				call.K, call.V = 0, unshift(v)
 				outs++
 			case err == stream.End:
 				call.K = 1
@@ -272,7 +272,7 @@ func RunReduceIter(r Reducer, p Params, script [][]Step) Session {
 	src := mkSrcs(script)
 	s.Panic = try(func() {
 		v := r.I(src, p)
-		s.Ret = &Call{K: 0, V: v, T: taken(src)}
+		s.Ret = &Call{K: 0, V: unshift(v), T: taken(src)}
 	})
 	s.Ledger = ledgers(src)
 	return s
@@ -295,7 +295,7 @@ func RunReduceStream(r Reducer, p Params, script [][]Step, expired bool) Session
 		if err != nil {
 			ret.K, ret.E = 2, ErrID(err)
 		} else {
-			ret.V = v
+			ret.V = unshift(v)
 		}
 		ret.T = taken(src)
 		s.Ret = &ret
